@@ -42,21 +42,21 @@ theorem tally_partition (rs : List (Bool × Bool)) (h : ∀ r ∈ rs, r ≠ (fal
     number of rounds — each round is counted exactly once: wins₁ + wins₂ + ties = rounds and
     ties₁ = ties₂ (a round never ends with both warriors dead: the battle stops at one survivor) -/
 theorem cli_tally_partition {cfg : Config} {w1 w2 : WarriorData} {places : List UInt64}
-    {t : Tally} (hpre : RoundPre cfg w1 w2) (hplaces : ∀ p ∈ places, p.toNat < 2 ^ 63)
+    {t : Tally} (hpre : RoundPre cfg w1 w2)
     (h : battles cfg [w1, w2] places = some t) :
     t.w1win + t.w2win + t.w1tie = places.length ∧ t.w1tie = t.w2tie :=
-  Gmars.cli_tally_partition hpre hplaces h
+  Gmars.cli_tally_partition hpre h
 
 /-- `fixed_output` — one round of the tool at a fixed placement is the reference battle: create,
     add warrior 1, spawn it at 0, add warrior 2, spawn it at the placement, run to completion
     (`refBattle`, built from `Spec.Api` and `Spec.step` only); the survivors it tallies are the
     reference's survivors -/
 theorem fixed_output {cfg : Config} {w1 w2 : WarriorData} {place : UInt64}
-    (hv : cfg.validate = true) (hpre : RoundPre cfg w1 w2) (hplace : place.toNat < 2 ^ 63) :
+    (hv : cfg.validate = true) (hpre : RoundPre cfg w1 w2) :
     round cfg [w1, w2] place =
       (refBattle cfg w1 w2 place.toNat).map (fun a => a.ws.map (fun w => w.st == .alive)) ∧
     (refBattle cfg w1 w2 place.toNat).isSome = true :=
-  Gmars.fixed_output hv hpre hplace
+  Gmars.fixed_output hv hpre
 
 /-- `flags_to_config` — without a preset the flags -8 -s -p -c -l map to
     NewQuickConfig(mode, size, processes, cycles, length): limits = core size, distance = length -/
